@@ -185,6 +185,9 @@ def judge : List String → String
   | "peer" :: rest => judgePeer rest
   | "form" :: rest => judgeForm rest
   | "cookies" :: rest => judgeCookies rest
+  | ["fwd", exc, probeOk, closed, reset, expectAnswer, answered] =>
+    boolStr (Spec.fwdOk { exc := b01 exc, probeOk := b01 probeOk, closed := b01 closed, reset := b01 reset,
+                          expectAnswer := b01 expectAnswer, answered := b01 answered })
   | "c02" :: exc :: probeOk :: closed :: reset :: pre :: ready :: onerr :: eoc :: n200 :: nErr :: framed :: cmd =>
     match runModel cmd, pre.toNat?, ready.toNat?, onerr.toNat?, eoc.toNat?, n200.toNat?, nErr.toNat? with
     | some outs, some pre, some ready, some onerr, some eoc, some n200, some nErr =>
